@@ -143,6 +143,29 @@ def run(tier, seed, replay):
                 if len(t) == 8:
                     rust_rows.append([int(x) for x in t])
         stats["probe_build_s"] = round(dt, 1)
+        # the same probe program against cglue built WITHOUT its default features (an alloc-only build any binary can select): the markers of the
+        # wrapper types must not depend on the feature set
+        rust_rows_ns = []
+        if rc == 0:
+            import shutil
+            ns_dir = os.path.join(vlib.CACHE, "c09probe_nostd")
+            os.makedirs(os.path.join(ns_dir, "src"), exist_ok=True)
+            shutil.copy(os.path.join(probe_dir, "src", "main.rs"), os.path.join(ns_dir, "src", "main.rs"))
+            open(os.path.join(ns_dir, "Cargo.toml"), "w").write(open(os.path.join(probe_dir, "Cargo.toml")).read().replace('cglue = { path = "/repo/cglue" }', 'cglue = { path = "/repo/cglue", default-features = false }').replace('name = "c09probe"', 'name = "c09probe_nostd"'))
+            try:
+                shutil.copy(os.path.join(vlib.REPO, "Cargo.lock"), os.path.join(ns_dir, "Cargo.lock"))
+            except OSError:
+                pass
+            rc2, o2, e2, dt2 = vlib.sh("timeout 900 cargo run --offline", cwd=ns_dir, timeout=930)
+            stats["probe_build_without_default_features_s"] = round(dt2, 1)
+            if rc2 != 0:
+                errs = [l for l in e2.split("\n") if l.startswith("error")][:4]
+                broken.append(("correspondence", "probe program does not compile against /repo built with default-features = false: " + " / ".join(errs)))
+            else:
+                for line in o2.split("\n"):
+                    t = line.split()
+                    if len(t) == 8:
+                        rust_rows_ns.append([int(x) for x in t])
         # ---- tie: calculus vs rustc
         mism = []
         if table is None:
@@ -169,7 +192,8 @@ def run(tier, seed, replay):
         known_fams = g["known_families"]
         seen_known = set()
         gained = 0
-        for rr, meta_row in zip(rust_rows, rows):
+        for feat, rr_set in (("", rust_rows), (" when cglue is built with default-features = false", rust_rows_ns)):
+          for rr, meta_row in zip(rr_set, rows):
             idx, ps, py, app, ss, sy, ts, ty = rr
             m = g["meta"][idx]
             for marker, s_has, t_has in (("Send", ss, ts), ("Sync", sy, ty)):
@@ -181,11 +205,12 @@ def run(tier, seed, replay):
                     if len(violations) < 3:
                         rp = vlib.write_replay(PROP, seed, tier, "input", {
                             "case": {"rule": m["name"], "payload_class": {"Send": bool(ps), "Sync": bool(py)}, "marker_gained": marker,
-                                     "source_type": meta_row["src"], "opaque_type": meta_row["tgt"]},
+                                     "source_type": meta_row["src"], "opaque_type": meta_row["tgt"], "cglue_features": "default-features = false" if feat else "default"},
                             "program": witness_program(meta_row, marker, defs),
-                            "observed": "rustc: opaque form is %s, source is not" % marker})
-                        violations.append(("input", "%s gains %s for payload (Send=%d,Sync=%d)" % (m["name"], marker, ps, py), rp, False))
+                            "observed": "rustc: opaque form is %s, source is not%s" % (marker, feat)})
+                        violations.append(("input", "%s gains %s for payload (Send=%d,Sync=%d)%s" % (m["name"], marker, ps, py, feat), rp, False))
         stats["cells_gaining_a_marker_per_rustc"] = gained
+        stats["probe_rows_without_default_features"] = len(rust_rows_ns)
         # ---- monitor 2: a container / object / group built around an instance handle is no more thread-safe than that handle (before any erasure)
         base_markers = {}
         for rr, meta_row in zip(rust_rows, rows):
